@@ -208,6 +208,14 @@ class _GridUFuncSignature:
         )
 
 
+def _split_name_position_pairs(arg_txt: str) -> Tuple[Tuple[str, ...], Tuple[str, ...]]:
+    """Split the text of one argument, e.g. ``X:center,Y:left``, into its axis names and positions."""
+    pairs = [
+        pair.partition(":") for pair in arg_txt.replace(" ", "").split(",") if pair
+    ]
+    return tuple(name for name, _, _ in pairs), tuple(pos for _, _, pos in pairs)
+
+
 def _parse_signature_from_string(
     signature: str,
 ) -> Tuple[T_AX_POS_LIST, T_AX_POS_LIST, T_AX_POS_LIST, T_AX_POS_LIST]:
@@ -225,23 +233,17 @@ def _parse_signature_from_string(
 
     in_txt, out_txt = signature.split("->")
 
-    in_ax_names = []
+    in_ax_names, in_ax_pos = [], []
     for arg in re.findall(_ARGUMENT, in_txt):
-        # Delete the axis positions so they aren't matched as axis names
-        only_names = re.sub(_AXIS_POSITION, "", arg)
-        in_ax_names.append(tuple(re.findall(_AXIS_NAME, only_names)))
+        names, positions = _split_name_position_pairs(arg[1:-1])
+        in_ax_names.append(names)
+        in_ax_pos.append(positions)
 
-    out_ax_names = []
+    out_ax_names, out_ax_pos = [], []
     for arg in re.findall(_ARGUMENT, out_txt):
-        only_names = re.sub(_AXIS_POSITION, "", arg)
-        out_ax_names.append(tuple(re.findall(_AXIS_NAME, only_names)))
-
-    in_ax_pos = [
-        tuple(re.findall(_AXIS_POSITION, arg)) for arg in re.findall(_ARGUMENT, in_txt)
-    ]
-    out_ax_pos = [
-        tuple(re.findall(_AXIS_POSITION, arg)) for arg in re.findall(_ARGUMENT, out_txt)
-    ]
+        names, positions = _split_name_position_pairs(arg[1:-1])
+        out_ax_names.append(names)
+        out_ax_pos.append(positions)
 
     return in_ax_names, in_ax_pos, out_ax_names, out_ax_pos
 
@@ -272,15 +274,11 @@ def _parse_signature_from_type_hints(
             if hasattr(hint, "__metadata__")
         ]
 
-        out_ax_names = []
+        out_ax_names, out_ax_pos = [], []
         for arg in return_annotations:
-            # Delete the axis positions so they aren't matched as axis names
-            only_names = re.sub(_AXIS_POSITION, "", arg)
-            out_ax_names.append(tuple(re.findall(_AXIS_NAME, only_names)))
-
-        out_ax_pos = [
-            tuple(re.findall(_AXIS_POSITION, arg)) for arg in return_annotations
-        ]
+            names, positions = _split_name_position_pairs(arg)
+            out_ax_names.append(names)
+            out_ax_pos.append(positions)
 
     # Now do input args
     arg_annotations = [
@@ -289,13 +287,11 @@ def _parse_signature_from_type_hints(
 
     # TODO check number of annotations?
 
-    in_ax_names = []
+    in_ax_names, in_ax_pos = [], []
     for arg in arg_annotations:
-        # Delete the axis positions so they aren't matched as axis names
-        only_names = re.sub(_AXIS_POSITION, "", arg)
-        in_ax_names.append(tuple(re.findall(_AXIS_NAME, only_names)))
-
-    in_ax_pos = [tuple(re.findall(_AXIS_POSITION, arg)) for arg in arg_annotations]
+        names, positions = _split_name_position_pairs(arg)
+        in_ax_names.append(names)
+        in_ax_pos.append(positions)
 
     # Do a sanity check before going any further
     str_signature = str(
